@@ -135,9 +135,10 @@ def run(tier, seed):
                                  min_per_shard=20, tlc_timeout=3000)
             _count(ev, cfg, events)
     # 3. second conformance part: PoK/SoK, vBNN-IBS, ring signatures, CL, PS, homomorphic signatures.
-    # GATED while under construction: runs only with C05_PART2=1 (the default check is the registered one above)
-    if os.environ.get("C05_PART2") != "1":
+    # (C05_PART2=0 runs the first part only - a debugging aid)
+    if os.environ.get("C05_PART2") == "0":
         return conf.finish()
+    ev.cov["schemes"]["not_covered"] = []
     ev.cov["schemes"].update({
         "with_definitional_predicate_part2": [
             "PoK / SoK of a discrete logarithm and of one of two (cp_pokdl, cp_pokor, cp_sokdl, cp_sokor: Camenisch-Stadler, evaluated directly)",
@@ -177,6 +178,8 @@ def run(tier, seed):
     # the same verifiers once more with the AddressSanitizer build on the inputs that stress buffer sizing (identity points
     # have 1-byte encodings, empty strings, thresholds above the ring size, every shape of the homomorphic verifiers): an
     # abnormal end of a verification is an event of its own (or the crash field of a call that the driver runs in a child)
+    if quick:
+        return conf.finish()                 # (the sanitizer lane of these cases also runs under C08's thorough harvest)
     cases3 = gen_sig2.memory_cases(cases2)
     events, _ = conf.run("std256-asan-part2", "std256-asan", "sig2", ["drv_sig2.c"], cases3, SPEC2, wraps=WRAPS2, nontrivial=nontrivial2,
                          min_per_shard=10, tlc_timeout=3000, driver_timeout=1800, heap="2g", max_restarts=100)
